@@ -89,6 +89,18 @@ CLAIMED: dict[str, tuple[str, str, str, str]] = {
             "Project marked by .thailint.yaml only; message paths normalised by removing the project prefix as "
             "spelled; a parent literally named .git is excluded (it legitimately is a project-root marker).",
             TECH),
+    "C04": ("DESIGN.md §5 C04",
+            "spec/Ignore.tla defines Names / InScope / Expected for six directive forms and ten rule-name "
+            "spellings, models the coded block scanner (layer B) and checks it against the requirement for all "
+            "block/violation positions in files of <=7 lines (non-vacuity run of the pinned scanner); TLC "
+            "enumerates all 100+ (form, spelling, placement) cases; each is instantiated for 21 linter x language "
+            "bases, the project is linted with all rules before and after, and IgnoreTrace.tla computes "
+            "Expected(base, d) and judges the result (NotSilenced / OverSilenced / OtherChanged), cross-checked "
+            "with a Python mirror used only for diagnosis keys.",
+            "Comment style follows the file's language; lazy-ignores findings excluded; file-level findings do "
+            "not shift; line-scoped forms are not generated for file-level linters nor inside DRY blocks; "
+            "`prefix.*` for rule ids without a sub-id carries no verdict.",
+            TECH),
 }
 
 REASON_NOT_YET = ("no check registered yet in this build; the TLA+ technique applies (see DESIGN.md §5) "
